@@ -555,6 +555,7 @@ static size_t get_value_size(carquet_physical_type_t type, int32_t type_length) 
 
 static carquet_status_t load_dictionary_page_mmap(
     carquet_column_reader_t* reader,
+    int64_t dict_offset,
     carquet_error_t* error) {
 
     carquet_reader_t* file_reader = reader->file_reader;
@@ -562,7 +563,6 @@ static carquet_status_t load_dictionary_page_mmap(
     const parquet_column_metadata_t* col_meta = reader->col_meta;
 
     /* Parse page header directly from mmap */
-    int64_t dict_offset = col_meta->dictionary_page_offset;
     if (dict_offset < 0 || (uint64_t)dict_offset >= (uint64_t)file_reader->file_size) {
         CARQUET_SET_ERROR(error, CARQUET_ERROR_INVALID_PAGE, "Dictionary page offset outside file");
         return CARQUET_ERROR_INVALID_PAGE;
@@ -693,6 +693,7 @@ static bool file_read_at(carquet_column_reader_t* reader, int site, FILE* file, 
 
 static carquet_status_t load_dictionary_page_fread(
     carquet_column_reader_t* reader,
+    int64_t dict_offset,
     carquet_error_t* error) {
 
     carquet_reader_t* file_reader = reader->file_reader;
@@ -702,7 +703,7 @@ static carquet_status_t load_dictionary_page_fread(
     /* Seek to dictionary page and read page header */
     uint8_t header_buf[256];
     size_t header_read;
-    if (!file_read_at(reader, 0, file, col_meta->dictionary_page_offset,
+    if (!file_read_at(reader, 0, file, dict_offset,
                       header_buf, sizeof(header_buf), &header_read)) {
         CARQUET_SET_ERROR(error, CARQUET_ERROR_FILE_SEEK, "Failed to seek to dictionary");
         return CARQUET_ERROR_FILE_SEEK;
@@ -733,7 +734,7 @@ static carquet_status_t load_dictionary_page_fread(
     }
 
     size_t data_read;
-    if (!file_read_at(reader, 1, file, col_meta->dictionary_page_offset + (int64_t)header_size,
+    if (!file_read_at(reader, 1, file, dict_offset + (int64_t)header_size,
                       compressed, page_header.compressed_page_size, &data_read)) {
         free(compressed);
         CARQUET_SET_ERROR(error, CARQUET_ERROR_FILE_SEEK, "Failed to seek past dict header");
@@ -795,7 +796,7 @@ static carquet_status_t load_dictionary_page_fread(
      * dictionary-encoded columns. The reliable offset is always right
      * after the dictionary page: dict_offset + header + compressed data. */
     if (status == CARQUET_OK) {
-        reader->data_start_offset = col_meta->dictionary_page_offset +
+        reader->data_start_offset = dict_offset +
                                     (int64_t)header_size +
                                     page_header.compressed_page_size;
     }
@@ -824,7 +825,8 @@ static carquet_status_t load_next_page_mmap(
 
     /* Load dictionary if needed (may update data_start_offset) */
     if (col_meta->has_dictionary_page_offset && !reader->has_dictionary) {
-        carquet_status_t status = load_dictionary_page_mmap(reader, error);
+        carquet_status_t status = load_dictionary_page_mmap(
+            reader, col_meta->dictionary_page_offset, error);
         if (status != CARQUET_OK) {
             return status;
         }
@@ -846,6 +848,17 @@ static carquet_status_t load_next_page_mmap(
         header_ptr, window, &page_header, &header_size, error);
     if (status != CARQUET_OK) {
         return status;
+    }
+
+    /* dictionary_page_offset is optional: without it data_page_offset points at the
+     * dictionary page, which identifies itself by its header */
+    if (page_header.type == CARQUET_PAGE_DICTIONARY && !reader->has_dictionary &&
+        reader->current_page == 0) {
+        status = load_dictionary_page_mmap(reader, page_offset, error);
+        if (status != CARQUET_OK) {
+            return status;
+        }
+        return load_next_page_mmap(reader, error);  /* has_dictionary is set: no further recursion */
     }
 
     if (page_header.type == CARQUET_PAGE_DATA_V2) {
@@ -1062,7 +1075,8 @@ static carquet_status_t load_next_page_fread(
 
     /* Load dictionary if needed (may update data_start_offset) */
     if (col_meta->has_dictionary_page_offset && !reader->has_dictionary) {
-        carquet_status_t status = load_dictionary_page_fread(reader, error);
+        carquet_status_t status = load_dictionary_page_fread(
+            reader, col_meta->dictionary_page_offset, error);
         if (status != CARQUET_OK) {
             return status;
         }
@@ -1088,6 +1102,17 @@ static carquet_status_t load_next_page_fread(
         header_buf, header_read, &page_header, &header_size, error);
     if (status != CARQUET_OK) {
         return status;
+    }
+
+    /* dictionary_page_offset is optional: without it data_page_offset points at the
+     * dictionary page, which identifies itself by its header */
+    if (page_header.type == CARQUET_PAGE_DICTIONARY && !reader->has_dictionary &&
+        reader->current_page == 0) {
+        status = load_dictionary_page_fread(reader, data_offset, error);
+        if (status != CARQUET_OK) {
+            return status;
+        }
+        return load_next_page_fread(reader, error);  /* has_dictionary is set: no further recursion */
     }
 
     if (page_header.type == CARQUET_PAGE_DATA_V2) {
